@@ -64,6 +64,15 @@ def to_np(A):
     for i in range(m):
         for j in range(n): arr[i, j] = [float(c) for c in A[i][j].t()]
     return quaternion.as_quat_array(arr)
+def layouts(An):
+    """the same 2-D array in other memory layouts (values identical): Fortran order, transposed view of a C array,
+    column-strided and row-reversed views.  Entry points must not depend on the layout of their argument."""
+    import numpy as np
+    m, n = An.shape
+    out = [('fortran', np.asfortranarray(An)), ('transposed-view', np.ascontiguousarray(An.T).T)]
+    big = np.zeros((m, 2 * n), dtype=An.dtype); big[:, ::2] = An; out.append(('column-strided', big[:, ::2]))
+    rev = np.ascontiguousarray(An[::-1]); out.append(('row-reversed-view', rev[::-1]))
+    return out
 def from_np(Aq, exact=True):
     """numpy quaternion array (1-D or 2-D) -> exact matrix (Fractions of the float values)"""
     import numpy as np, quaternion
